@@ -80,7 +80,14 @@ type c12handle struct {
 	// what happened during the operation currently running on this handle
 	injected  []string // store operations that were failed by injection
 	startDone bool
-	da        *allocator.DistributedAllocator
+	// watch faults that have fired on notifications addressed to this incarnation
+	wReorder, wDup, wDelay bool
+	// a notification generated before this node's own later write to the same key
+	// was delivered after that write (plain asynchrony, no injected fault)
+	wLocalRace bool
+	ownWrite   map[string]int // key -> last notification seq that preceded the node's own latest write
+	delivered  map[string]int // notifications delivered, per subscriber
+	da         *allocator.DistributedAllocator
 }
 
 func newC12Store(c *sim.Ctx) *c12store {
@@ -187,6 +194,7 @@ func (h *c12handle) Put(ctx context.Context, key string, value []byte) error {
 		}
 	}
 	st.c.S.Logf("store put n%d %s %s", h.slot.idx, key, np)
+	h.ownWrite[key] = st.evseq
 	st.notify(h, key, value, false)
 	if ca {
 		h.die()
@@ -206,6 +214,7 @@ func (h *c12handle) Delete(ctx context.Context, key string) error {
 	delete(st.data, key)
 	st.version++
 	st.c.S.Logf("store delete n%d %s", h.slot.idx, key)
+	h.ownWrite[key] = st.evseq
 	st.notify(h, key, nil, true)
 	if ca {
 		h.die()
@@ -304,10 +313,12 @@ func (st *c12store) notify(from *c12handle, key string, value []byte, deleted bo
 		case 1:
 			ev.delay = time.Duration(1+s.Choose(simrt.StNet, 50)) * time.Millisecond
 			s.Fault("store.watch.delay")
+			w.h.wDelay = true
 			w.q = append(w.q, ev)
 		case 2:
 			ev.dup = true
 			s.Fault("store.watch.dup")
+			w.h.wDup = true
 			w.q = append(w.q, ev)
 		case 3:
 			// overtaken by the next notification for this watcher
@@ -324,8 +335,26 @@ func (st *c12store) notify(from *c12handle, key string, value []byte, deleted bo
 			w.q = append(w.q, w.hold)
 			w.hold = nil
 			s.Fault("store.watch.reorder")
+			w.h.wReorder = true
 		}
 	}
+}
+
+// watchContext names the strongest delivery fault this incarnation has seen so
+// far ("" = every notification addressed to it was delivered FIFO, exactly once,
+// without injected delay).
+func (h *c12handle) watchContext() string {
+	switch {
+	case h.wReorder:
+		return "/after-reorder"
+	case h.wDup:
+		return "/after-dup"
+	case h.wLocalRace:
+		return "/after-local-write-race"
+	case h.wDelay:
+		return "/after-delay"
+	}
+	return ""
 }
 
 // pump is the delivery task of one watcher.
@@ -344,6 +373,10 @@ func (st *c12store) pump(w *c12watcher) {
 		}
 		if st.preGet != nil {
 			st.preGet(w, ev)
+		}
+		if last, ok := w.h.ownWrite[ev.key]; ok && ev.seq <= last {
+			w.h.wLocalRace = true
+			s.Probe("watch_notification_older_than_own_write")
 		}
 		s.Logf("deliver n%d seq=%d %s deleted=%v %s", w.h.slot.idx, ev.seq, ev.key, ev.deleted, c12recPrefix(ev.val))
 		w.cb(ev.key, ev.val, ev.deleted)
